@@ -203,6 +203,11 @@ func (c *Ctx) Finish() int {
 				Detail: "positive example did not trigger the rule: " + cn.Note})
 		}
 	}
+	if os.Getenv("LEDGERLINT_VERBOSE") != "" {
+		for _, o := range c.Obligs {
+			fmt.Printf("  %s: [%s] %s %s: %s\n", o.Pos, o.Status, o.Rule, o.Construct, o.Detail)
+		}
+	}
 	replayDir := filepath.Join(verifRoot, "evidence", "replays")
 	os.MkdirAll(replayDir, 0o755)
 	// remove stale replay files of this property
